@@ -340,7 +340,7 @@ func (x *Exec) resliceView(st *State, base, r, lo Term) {
 		return
 	}
 	es := x.ctx.sortOf(sl.Elem())
-	m := x.elemMem(st, es)
+	m := x.elemMemT(st, sl.Elem())
 	key := m.S + "|" + r.S
 	if _, ok := x.ctx.views[key]; ok {
 		return
@@ -403,9 +403,17 @@ func (x *Exec) evalComposite(n *ast.CompositeLit, st *State) Term {
 		_ = es
 		return s
 	case *types.Map:
-		if len(n.Elts) == 0 {
-			return x.newMap(st, u, t)
+		m := x.newMap(st, u, t)
+		for _, el := range n.Elts {
+			kv, ok := el.(*ast.KeyValueExpr)
+			if !ok {
+				x.unsupported(n, "map literal element")
+			}
+			kk := x.convert(st, x.eval(kv.Key, st), u.Key())
+			vv := x.convert(st, x.eval(kv.Value, st), u.Elem())
+			x.mapSet(st, m, u, kk, vv)
 		}
+		return m
 	}
 	x.unsupported(n, "composite literal of %s", t)
 	return Term{}
@@ -422,7 +430,8 @@ func (x *Exec) mapKeys(u *types.Map) (kv, kh, vs, ks string) {
 func (x *Exec) mapHas(st *State, m Term, u *types.Map, k Term) Term {
 	_, kh, _, ks := x.mapKeys(u)
 	h := x.memTerm(st, kh, "(Array Int (Array "+ks+" Bool))")
-	return Term{S: app("select", app("select", h.S, m.S), k.S), Sort: "Bool", T: boolT}
+	// a nil map has no keys (it can never be written)
+	return Term{S: and(not(arith("=", m.S, "0")), app("select", app("select", h.S, m.S), k.S)), Sort: "Bool", T: boolT}
 }
 
 func (x *Exec) mapGet(st *State, m Term, u *types.Map, k Term) Term {
@@ -823,10 +832,27 @@ func (x *Exec) evalConversion(call *ast.CallExpr, to types.Type, st *State) Term
 	r := Term{S: app(name, v.S), Sort: toS, T: to}
 	if toS == "Slice" {
 		// fresh slice whose content is a function of the source
-		rr := x.freshOf(st, "conv", to)
 		ref := x.allocRef(st, "convarr")
+		rr := x.freshOf(st, "conv", to)
 		st.assume(app("=", app("s-arr", rr.S), ref.S))
 		st.assume(app("=", app("s-off", rr.S), "0"))
+		if v.Sort == "Str" {
+			// []byte(s) / []rune(s): the contents are "the decoding of s" (an uninterpreted relation, see spec decodes())
+			elemT := to.Underlying().(*types.Slice).Elem()
+			es := x.ctx.sortOf(elemT)
+			rel := "decodes!" + sanitize(typeName(elemT))
+			x.ctx.declOnce(rel, fmt.Sprintf("(declare-fun %s ((Array Int %s) Int Str) Bool)", rel, es))
+			// a new allocation: the element memory gets a fresh inner array for it
+			m := x.elemMemT(st, elemT)
+			content := x.ctx.fresh("decoded", "(Array Int "+es+")")
+			nm := x.define(st, "e_conv", Term{S: app("store", m.S, ref.S, content), Sort: m.Sort})
+			st.mem[x.regElem(elemT)] = nm
+			rrd := x.define(st, "sl", rr)
+			x.setView(nm, rrd, Term{S: content, Sort: "(Array Int " + es + ")"})
+			x.transferViews(m, nm, es, func(string) string { return "true" })
+			st.assume(app(rel, content, app("s-len", rr.S), v.S))
+			return rr
+		}
 		x.ctx.note("conversion " + typeName(from) + " -> " + typeName(to) + " yields a fresh slice with unconstrained contents")
 		return rr
 	}
@@ -890,7 +916,7 @@ func (x *Exec) evalBuiltin(call *ast.CallExpr, name string, st *State) []Term {
 			s := x.define(st, "made", Term{S: app("mk-slice", r.S, "0", ln.S, cp.S), Sort: "Slice", T: t})
 			// zeroed contents
 			es := x.ctx.sortOf(u.Elem())
-			m := x.elemMem(st, es)
+			m := x.elemMemT(st, u.Elem())
 			zarr := fmt.Sprintf("((as const (Array Int %s)) %s)", es, x.zeroOf(u.Elem()).S)
 			if strings.Contains(zarr, "str!") {
 				// cvc5 wants a value in a constant array: define the zeroed array by an axiom instead
@@ -923,7 +949,14 @@ func (x *Exec) evalBuiltin(call *ast.CallExpr, name string, st *State) []Term {
 		}
 		return []Term{{S: app("ite", app(op, a.S, b.S), a.S, b.S), Sort: "Int", T: x.typeOf(call)}}
 	case "delete":
-		x.unsupported(call, "delete")
+		m := x.eval(call.Args[0], st)
+		mt := m.T.Underlying().(*types.Map)
+		k := x.convert(st, x.eval(call.Args[1], st), mt.Key())
+		_, khK, _, ks := x.mapKeys(mt)
+		hm := x.memTerm(st, khK, "(Array Int (Array "+ks+" Bool))")
+		// delete on a nil map is a no-op
+		st.mem[khK] = x.define(st, "mh", Term{S: app("ite", app("=", m.S, "0"), hm.S, app("store", hm.S, m.S, app("store", app("select", hm.S, m.S), k.S, "false"))), Sort: hm.Sort})
+		return nil
 	}
 	x.unsupported(call, "builtin %s", name)
 	return nil
@@ -946,7 +979,7 @@ func (x *Exec) evalAppend(call *ast.CallExpr, st *State) Term {
 	for _, a := range call.Args[1:] {
 		v := x.convert(st, x.eval(a, st), elemT)
 		s = x.define(st, "sl", s)
-		m := x.elemMem(st, es)
+		m := x.elemMemT(st, elemT)
 		view, _ := x.viewOf(st, s, elemT)
 		arr, off, ln, cp := app("s-arr", s.S), app("s-off", s.S), app("s-len", s.S), app("s-cap", s.S)
 		room := app("<", ln, cp)
@@ -980,7 +1013,7 @@ func (x *Exec) evalCopy(call *ast.CallExpr, st *State) Term {
 	dst, src = x.define(st, "sl", dst), x.define(st, "sl", src)
 	vd, _ := x.viewOf(st, dst, elemT)
 	vs, _ := x.viewOf(st, src, elemT)
-	m := x.elemMem(st, es)
+	m := x.elemMemT(st, elemT)
 	n := x.define(st, "ncopy", Term{S: app("ite", app("<=", app("s-len", dst.S), app("s-len", src.S)), app("s-len", dst.S), app("s-len", src.S)), Sort: "Int", T: intT})
 	darr, doff := app("s-arr", dst.S), app("s-off", dst.S)
 	sarr, soff := app("s-arr", src.S), app("s-off", src.S)
